@@ -1060,6 +1060,12 @@ func (b *BaseStore) AddOperation(ctx context.Context, op operation.Operation, on
 	oplog := b.OpLog()
 
 	b.muWrite.Lock()
+
+	// read before the entry is appended: a Load that joins the history of a
+	// cached head between the two steps makes the head look superseded,
+	// although the entry appended before the join does not lead to it
+	keptHeads := b.cachedHeadsOutsideLog(ctx, "_localHeads")
+
 	e, err := oplog.Append(ctx, data, &ipfslog.AppendOptions{PointerCount: b.referenceCount})
 	if err != nil {
 		b.muWrite.Unlock()
@@ -1069,7 +1075,7 @@ func (b *BaseStore) AddOperation(ctx context.Context, op operation.Operation, on
 	verifhook.At("write.appended", b, e)
 	b.recalculateReplicationStatus(e.GetClock().GetTime())
 
-	marshaledEntry, err := json.Marshal(append([]ipfslog.Entry{e}, b.cachedHeadsOutsideLog(ctx, "_localHeads")...))
+	marshaledEntry, err := json.Marshal(append([]ipfslog.Entry{e}, keptHeads...))
 	if err != nil {
 		b.muWrite.Unlock()
 		return nil, fmt.Errorf("unable to marshal entry: %w", err)
